@@ -246,6 +246,8 @@ def registry(rng):
     add("SampleImage/abel", lambda: analytical.SampleImage(41, name="Ominus").abel)
     add("TransformPair", lambda k: (lambda p: (p.func, p.abel, p.r))(analytical.TransformPair(40, profile=k)), 3)
     add("transform_pairs.profile5", transform_pairs.profile5, np.linspace(0, 1, 30))
+    for k_ in (1, 2, 3, 4, 6, 7):          # (radial vectors that contain the end points 0.0 and 1.0 exactly)
+        add(f"transform_pairs.profile{k_}", getattr(transform_pairs, f"profile{k_}"), np.linspace(0.05 if k_ in (1, 4) else 0, 1, 21))
     add("linbasex.int_beta", abel.linbasex.int_beta, rng.random((2, 30)) + 0.5, regions=[(3, 9), (12, 20)])
     add("linbasex.mean_beta", abel.linbasex.mean_beta, np.arange(30.0), rng.random((2, 30)) + 0.5, [(3, 9), (12, 20)])
     return E
